@@ -64,6 +64,12 @@ const Cfg cfgs[] = {
 	{"dgrep", {"-v", "--eq", "2012-02-29"}, 1, 2, true},
 	{"dgrep", {">=2012-03-01 && <2013-01-01 || 2000-01-01"}, 1, 2, true},
 	{"dgrep", {"-i", "%d/%m/%Y", ">2012-03-01"}, 1, 2, true},
+	/* formats without a literal to search for: the line scanner counts digits instead */
+	{"dconv", {"-i", "%Y%m%d", "-f", "%F"}, 1, 4, true},
+	{"dadd", {"-i", "%Y%m%d", "+1d"}, 1, 4, true},
+	{"dgrep", {"-i", "%Y%m%d", ">=2012-03-01"}, 1, 4, true},
+	{"dconv", {"-i", "%s", "-f", "%FT%T"}, 1, 5, true},
+	{"dconv", {"-S", "-i", "%Y%m%d", "-f", "%F"}, 1, 4, true},
 	{"dzone", {}, 0, 3, false},
 	{"dzone", {"--next"}, 0, 3, false},
 	{"dzone", {"--prev", "--next"}, 0, 3, false},
@@ -106,6 +112,19 @@ std::string rand_value(Rng &r)
 		static const char *junk[] = {"foo", "", "2012-13-45", "99", "--", "2012-02-30", "24:00:00", "T", "2012-01-01T", "0000-00-00", " ", "1e9"};
 		return junk[r.below(sizeof(junk) / sizeof(*junk))];
 	}
+	return b;
+}
+std::string rand_compact(Rng &r, int vkind)
+{
+	char b[40];
+	if (r.chance(1, 12))
+		return r.chance(1, 2) ? "x" : "";
+	if (vkind == 5) {
+		snprintf(b, sizeof(b), "%lld", (long long)r.range(0, 2000000000));
+		return b;
+	}
+	int y = (int)r.range(1950, 2050), m = (int)r.range(1, 12);
+	snprintf(b, sizeof(b), "%04d%02d%02d", y, m, (int)r.range(1, model::mdays(y, m)));
 	return b;
 }
 std::string rand_dur(Rng &r)
@@ -187,8 +206,13 @@ struct HistEngine : Engine {
 			n = 60;
 		std::vector<std::string> pool;
 		size_t npool = longh ? (size_t)r.range(2, 6) : 0;
+		if (c.vkind >= 4 && !longh && r.chance(1, 2)) {
+			/* the digit scanner's counter lives across lines: a medium long stream of few values */
+			n = (size_t)r.range(130, 320);
+			npool = (size_t)r.range(2, 5);
+		}
 		for (size_t i = 0; i < npool; i++)
-			pool.push_back(c.vkind == 1 ? rand_dur(r) : c.vkind == 2 ? rand_text_line(r) : rand_value(r));
+			pool.push_back(c.vkind >= 4 ? rand_compact(r, c.vkind) : c.vkind == 1 ? rand_dur(r) : c.vkind == 2 ? rand_text_line(r) : rand_value(r));
 		std::vector<std::string> vals;
 		if (c.vkind == 3) {
 			/* dzone: zones x date-times */
@@ -218,7 +242,7 @@ struct HistEngine : Engine {
 			return p;
 		}
 		for (size_t i = 0; i < n; i++)
-			vals.push_back(npool ? pool[r.below(npool)] : c.vkind == 1 ? rand_dur(r) : c.vkind == 2 ? rand_text_line(r) : rand_value(r));
+			vals.push_back(npool ? pool[r.below(npool)] : c.vkind >= 4 ? rand_compact(r, c.vkind) : c.vkind == 1 ? rand_dur(r) : c.vkind == 2 ? rand_text_line(r) : rand_value(r));
 		if (c.mode == 0) {
 			for (auto &v : vals) {
 				if (v.empty() || v[0] == '-')
